@@ -94,6 +94,8 @@ def neighbour(rng, a):
 
 
 def gen(rng, knobs):
+    if not knobs.get("_no_modes") and rng.random() < 0.12:
+        return gen_race(rng, knobs)
     backend = rng.choice(["sql", "lmdb"])
     pubs = [hx(rng, first=rng.choice([0, 0xff, None])) for _ in range(3)]
     anchors = []
@@ -152,7 +154,125 @@ def gen(rng, knobs):
             "via": rng.choice(["query", "sub"])}
 
 
+def gen_race(rng, knobs):
+    """LMDB scans on pool threads racing with the writer thread storing UNRELATED events, pre-empted at the
+    bytecode boundaries of kv.py: a query's answer must not depend on what is being written next to it"""
+    base = gen(rng, dict(knobs, _no_modes=True))
+    base["backend"] = "lmdb"
+    base["mode"] = "race"
+    adds = [s for s in base["steps"] if s[0] == "add"][:rng.choice([1, 1, 2])]
+    base["steps"] = adds
+    base["probes"] = base["probes"][:rng.choice([1, 2, 3])]
+    if rng.random() < 0.65:
+        # chained (multi-index) plans with several candidates, and writes that make the WRITER scan indexes too
+        # (a kind-5 event walks its author's keys, a replaceable one the author+kind keys)
+        X, Z = hx(rng), hx(rng)
+        v = rng.choice(["v", "x", "ab"])
+        k = rng.choice([1, 7])
+        base["anchors"] = [craft(rng, X, k, T0 - 10 * i, [["t", v]] + ([["p", hx(rng)]] if rng.random() < 0.3 else []))
+                           for i in range(1, rng.randint(3, 6))]
+        base["anchors"] += [craft(rng, hx(rng), k, T0 - 5, [["t", v]]), craft(rng, X, k + 1, T0 - 7, [["t", "other"]])]
+        base["probes"] = rng.sample([{"authors": [X], "#t": [v]}, {"kinds": [k], "#t": [v]},
+                                     {"authors": [X], "kinds": [k], "#t": [v]}, {"authors": [X], "kinds": [k]},
+                                     {"authors": [X, hx(rng)], "#t": [v, "zz"]}], rng.choice([1, 2, 3]))
+        writes = [craft(rng, Z, 5, T0 - 1, [["e", hx(rng)]]), craft(rng, Z, 0, T0 - 2, []),
+                  craft(rng, Z, 10002, T0 - 3, [["r", "wss://x"]]), craft(rng, Z, 30001, T0 - 4, [["d", "q"]]),
+                  craft(rng, Z, 3, T0 - 6, [["p", hx(rng)]])]
+        base["steps"] = [["add", e, "writer-scan"] for e in rng.sample(writes, rng.choice([1, 2, 3]))]
+    base["weights"] = rng.choice([{"stay": 10.0, "switch": 1.0, "start": 1.0}, {"stay": 40.0, "switch": 1.0, "start": 3.0},
+                                  {"stay": 3.0, "switch": 1.0, "start": 1.0}])
+    return base
+
+
+def run_race(case, sim):
+    from ..worlds import lists as lw
+    from .. import seams
+    w = store.StoreWorld(sim, "lmdb", storage_opts={"validators": []})
+    viol = []
+    out = {}
+
+    async def main(_):
+        import logging
+        await w.env.open()
+        await w.settle()
+        try:
+            from nostr_relay.storage import kv
+            st = w.env.storage
+            for i, a in enumerate(case["anchors"]):
+                await w.do(i, ["add", a])
+            await w.settle()
+            log = logging.getLogger("nrsim.race")
+            pre = w.env.dump()
+
+            def ask(f):
+                plans = kv.planner([dict(f)], default_limit=600000)
+                got = []
+                for plan in plans:
+                    _p, events = kv.execute_one_plan(st.db, plan, log)
+                    got += [e.id for e in events]
+                return sorted(set(got))
+            alone = [ask(f) for f in case["probes"]]
+            # queue the unrelated writes without letting the writer actor take them
+            actor = getattr(st.writer_thread, "_actor", None)
+            if actor is not None:
+                actor.finished = True
+            for s_ in case["steps"]:
+                await st.add_event(copy.deepcopy(s_[1]))
+            q = st.writer_thread.queue
+
+            def writer_step():
+                while q.q:
+                    q.armed = True
+                    try:
+                        st.writer_thread.run()
+                    except seams._Park:
+                        pass
+                return "written"
+            fns = [(lambda f=f: ask(f)) for f in case["probes"]] + [writer_step]
+            race = lw.ThreadRace(sim, lw.module_codes(kv), fns, case.get("weights"))
+            jobs = race.run()
+            out["jobs"] = [(j.result, repr(j.exc) if j.exc is not None else None) for j in jobs]
+            out["alone"] = alone
+            out["boundaries"], out["switches"] = race.boundaries, race.switches
+            if actor is not None:
+                actor.finished = False
+            await w.settle()
+            out["after"] = [ask(f) for f in case["probes"]]
+        finally:
+            await w.env.close()
+
+    try:
+        kernel.run_sim(sim, main)
+    finally:
+        w.env.cleanup()
+    added = [s_[1] for s_ in case["steps"]]
+    for pi, f in enumerate(case["probes"]):
+        res, exc = out["jobs"][pi]
+        if any(model.matches(e, f, "inclusive") for e in added):
+            continue          # the write is related to this probe: either answer is fine
+        if exc is not None:
+            viol.append({"cls": "query-raises-under-concurrent-write", "sig": "query-raises-under-concurrent-write|%s" % exc[:30],
+                         "detail": {"filter": f, "exc": exc}})
+        elif res != out["alone"][pi] or out["after"][pi] != out["alone"][pi]:
+            viol.append({"cls": "unrelated-change", "sig": "unrelated-change|lmdb|%s|%s|concurrent-write" % (
+                qcommon.plan_label("lmdb", f), qcommon.filter_shape(f)),
+                         "detail": {"filter": f, "alone": [x[:8] for x in out["alone"][pi]], "during": [x[:8] for x in (res or [])],
+                                    "after": [x[:8] for x in out["after"][pi]],
+                                    "written": [{"id": e["id"][:8], "kind": e["kind"], "pubkey": e["pubkey"][:8], "tags": e["tags"]} for e in added]}})
+    wres, wexc = out["jobs"][-1]
+    if wexc is not None:
+        viol.append({"cls": "writer-raises", "sig": "writer-raises|%s" % wexc[:30], "detail": {"exc": wexc}})
+    sim.note("race", "%s %s" % (out.get("boundaries"), out.get("switches")))
+    return {"violations": viol[:1], "nontrivial": out.get("switches", 0) > len(case["probes"]) + 1 and any(out["alone"]),
+            "probes": {"mode_race": 1, "race_bytecode_boundaries": out.get("boundaries", 0),
+                       "race_thread_switches": out.get("switches", 0), "backend_lmdb": 1},
+            "signature": qcommon.h16(("race", [qcommon.filter_shape(f) for f in case["probes"]], out.get("switches"),
+                                      [len(a) for a in out["alone"]]))}
+
+
 def sample(case):
+    if case.get("mode") == "race":
+        return {"mode": "race", "probes": case["probes"][:3], "writes": [s_[2] for s_ in case["steps"]], "weights": case["weights"]}
     return {"backend": case["backend"], "probes": case["probes"][:4],
             "steps": [[s[0], s[2] if s[0] == "add" else s[1][:8] if len(s) > 1 else ""] for s in case["steps"]][:10],
             "anchors": len(case["anchors"])}
@@ -169,6 +289,8 @@ def on_boundary(ev, f):
 
 
 def run(case, sim):
+    if case.get("mode") == "race":
+        return run_race(case, sim)
     backend = case["backend"]
     via = case.get("via", "query")
     w = store.StoreWorld(sim, backend, storage_opts={"validators": []})
